@@ -686,6 +686,7 @@ func init() {
 		g.emit("tb 0 65536 s134417,s140000,f0:65536,o,h134417,g134417,h140000,h65536,f65536:65600,o,h134417,c,o,h140000")
 		g.emit("tbprobe backfill 300")
 		g.emit("tbprobe farbit 5000")
+		g.emit("tbprobe farbit 6000")
 		if g.thorough() {
 			g.emit("tbprobe backfill 5000")
 			g.emit("tbprobe backfill 66000")
